@@ -27,6 +27,10 @@ ASSUMPTIONS = [
     'timestamps below 2^62 s for C06_window (beyond that time.Unix wraps; the model reproduces the wrap, the correspondence samples it)',
     'the client\'s clock is inside the window AFTER truncation to whole seconds (Unix()); an offset in (-180 s, -179 s) can fall outside '
     '(C06_truncation_edge); -179 s <= offset < +180 s always suffices (C06_offset_suffices)',
+    'domain of the oracle = client clock offsets in [-179 s, +180 s) at nanosecond resolution of the SERVER clock, which includes the last '
+    'sub-second of the window (server clock part-way through a second, client ahead by 180 s minus less than that fraction: generated on '
+    'every run, must be served). Offsets of exactly +180 s and beyond are outside the statement ("strictly inside"): the unchanged code still '
+    'accepts +180 s .. +180 s + fraction because the client sends whole seconds; these are compared with the model only (cases x3, x4)',
     'empty replay cache (replays are C08); the client\'s X25519 did not return the all-zero secret (hypothesis dh_ok; Go panics otherwise)',
 ]
 
@@ -113,6 +117,22 @@ def gen_cases(ctx):
                  method=bytes(rng.randrange(1, 256) for _ in range(rng.randrange(1, 13))) if method is None else method,
                  snow=snow, cnow=snow + off, offset=off, seed='h%d-%d' % (ctx.seed, k), indomain=True)
         cases.append(['h%d' % k, None, c])
+    # the last sub-second of the window: the server clock is part-way through a second (fraction f > 0) and the client
+    # is ahead by an offset in [180 s - f, 180 s) - strictly inside the window (C06_offset_suffices), so the property's
+    # oracle applies in full: such a client MUST be served.  (A server that compares whole seconds rejects exactly these.)
+    edge = []
+    for f in (1, 500000000, 999999999):
+        for off in (180 * 10**9 - f, 180 * 10**9 - 1, 180 * 10**9 - (f + 1) // 2):
+            edge.append((f, off))
+    for f, off in ((1, -179 * 10**9), (999999999, -179 * 10**9)):     # and the documented lower bound of the domain
+        edge.append((f, off))
+    for k, (f, off) in enumerate(edge):
+        tb = [('direct', 'firefox'), ('cdn', 'chrome'), ('direct', 'chrome'), ('direct', 'safari')][k % 4]
+        snow = BASE_NOW + (77 + k) * 10**9 + f
+        c = dict(kind='H', transport=tb[0], browser=tb[1], enc=['aes-gcm', 'plain', 'chacha20-poly1305'][k % 3], sid=2000 + k, unordered=bool(k & 1),
+                 name='www.example.com', uid=bytes(range(16)), method=b'shadowsocks', snow=snow, cnow=snow + off, offset=off,
+                 seed='e%d-%d' % (ctx.seed, k), indomain=True, edge='server fraction %d ns, client ahead by %d ns' % (f, off))
+        cases.append(['e%d' % k, None, c])
     # out-of-domain / outside-window handshakes: model vs implementation only
     xs = []
     for off in (-181 * 10**9, -180 * 10**9 - 1, -180 * 10**9, 180 * 10**9, 180 * 10**9 + 1, 181 * 10**9, -(179 * 10**9 + 999999999), 3600 * 10**9):
@@ -279,7 +299,8 @@ def oracle(c, g):
     enc = consts()[ENC_NAMES[c['enc']]]
     want = 'A:%s:%s:%x:%x:%s' % (hx(c['uid']), hx(c['method']), enc, c['sid'], '1' if c['unordered'] else '0')
     if g.get('ok') != '1':
-        return 'handshake failed for a correctly configured client (offset %d ns): %s' % (c['offset'], g.get('cerr', g))
+        return 'handshake failed for a correctly configured client whose clock offset %d ns is strictly inside the +-180 s window (server clock %d ns, client clock %d ns): %s' % (
+            c['offset'], c['snow'], c['cnow'], g.get('cerr', g.get('S', g)))
     if g.get('S') != want:
         return 'server recovered %s, client was configured with %s' % (g.get('S'), want)
     if g.get('skey', '-') == '-' or len(g['skey']) != 64:
@@ -455,7 +476,8 @@ def correspondence(ctx, verdict, pr):
     verdict.cov.update(
         evaluations=len(cases), distinct_nontrivial=len(distinct),
         rule='pairwise cover of {direct x 3 browser signatures, cdn} x 5 encryption-method names x sid {0,1,2^32-1,random} x flag x 6 server names '
-             '(incl. random) x clock offsets {-179 s, 0, +179 s, random inside} x UIDs x method names (1..12 bytes), plus out-of-domain handshakes '
+             '(incl. random) x clock offsets {-179 s, 0, +179 s, random inside} x UIDs x method names (1..12 bytes), plus 11 in-domain handshakes at the '
+             'edges of the window (server clock 1 ns / 0.5 s / 0.999999999 s into a second, client ahead by 180 s minus at most that fraction; -179 s), plus out-of-domain handshakes '
              '(offsets at and beyond +-180 s, 13-byte / NUL-edged names, UIDs of 8/20/48/60 bytes) and decryptClientInfo on crafted plaintexts (window '
              'edges to the nanosecond, int64 wraps, flag/reserved variants), and forged first packets whose ephemeral value is a small-order X25519 '
              'input with the block sealed under the all-zero key, both transports (server side only: model and code must both reject at the key agreement). distinct_nontrivial = distinct in-domain configurations whose real handshake completed',
